@@ -32,7 +32,10 @@ class C01(GProp):
             k = r.below(16)
             kinds = ['A', 'B', 'C', 'Comma', 'U', 'Hash']
             if k == 0: g = parsegen.gen_c06(r, 2 + r.below(10))
-            elif k == 1: g = c07mod.gen_rep(r, 1 + r.below(3))
+            elif k == 1:
+                g = c07mod.gen_rep(r, 1 + r.below(3))
+                if r.chance(1, 3):
+                    g[1] = g[2] = r.below(3)          # "exactly n" items, n = 0 included
             elif k == 2: g = [r.choice(c10mod.VARIANTS), ['LP', 'LK', 'LC'], r.choice([['one', 'A'], c02mod.gen_list(r), 'empty']), ['RP', 'RK', 'RC'], r.choice([[], ['Semi']])]
             elif k == 3: g = c02mod.gen_list(r)
             elif k == 4: g = [r.choice(c12mod.RCOMB), c12mod.gen_rs(r), parsegen.gen_item(r, 2)]
@@ -66,7 +69,10 @@ class C01(GProp):
                               ['listdef', ['text', ['one', 'A']], 'Comma', ['Semi']]])
             else: g = ['unfiltered', ['both', ['maybe', ['pred', ['is', 'Ws']]], parsegen.gen_c06(r, 4)]]
             t = spangen.random_text(r, FULL, 16 if tier == 'quick' else 30)
-            if k in (2, 14) and r.chance(1, 2):
+            if k == 1 and r.chance(1, 2):
+                # item-dense texts for the repetitions: the item really matches where the loop stands (also with bounds 0..0)
+                t = spangen.random_text(r, ['a', 'a', 'a', 'b', 'c', 'comma', 'comma', 'sp', 'semi'], 10)
+            elif k in (2, 14) and r.chance(1, 2):
                 # deep well-nested bracket texts with same-kind runs and one perturbation (runs partly closed, then a mismatch)
                 t = c10mod.gen_nested_text(r)[:24]
             elif k in (2, 14) and r.chance(2, 3):
@@ -78,6 +84,19 @@ class C01(GProp):
                                            flt=r.choice([['drop', 'Ws'], ['drop', 'Ws'], 'none', ['drop', 'Ws', 'U'], ['keep', 'A', 'B', 'C', 'Comma', 'Semi', 'LP', 'RP', 'LK', 'RK'],
                                                          ['drop', 'Ws', 'Hash', 'Semi'], ['drop', 'Ws', 'LP', 'RP']]),
                                            sink=r.below(2), pushed=[1] if r.chance(1, 4) else [], fmt=1, runs=1 + (r.below(3) if r.chance(1, 5) else 0)))
+        # corner bounds of every repetition combinator on texts where the item matches at once: 0..0, n..n, 0..1
+        for i in range(60 if tier == 'quick' else 600):
+            kind = r.choice(c07mod.REPS)
+            lo = r.below(3); hi = r.choice([lo, lo, lo + 1, 0 if lo == 0 else lo])
+            item = r.choice([['one', 'A'], ['any', 'A', 'B'], ['seq', 'A', 'A']])
+            if kind in ('repeat', 'repeatcount'): g = [kind, lo, hi, item]
+            elif kind in ('repeatuntil', 'repeatcountuntil'): g = [kind, lo, hi, ['one', 'C'], item]
+            elif kind in ('intersperse', 'interspersecount'): g = [kind, lo, hi, item, ['one', 'Comma']]
+            elif kind in ('intersperseuntil', 'interspersecountuntil'): g = [kind, lo, hi, ['one', 'C'], item, ['one', 'Comma']]
+            else: g = [kind, lo, hi, item, 'Comma']
+            t = r.choice([['a'], ['sp', 'a'], ['a', 'comma', 'a'], ['a', 'a', 'comma', 'a', 'a'], ['b', 'a']]) + spangen.random_text(r, ['a', 'comma', 'sp', 'c'], 4)
+            n += 1
+            out.append(parsegen.parse_case('c%d' % n, t, ['both', g, ['maybe', ['one', 'A']]] if r.chance(1, 2) else g, sink=r.below(2), fmt=1))
         for i in range(600 if tier == 'quick' else 8000):
             t = spangen.random_text(r, FULL, 16)
             build = [['metrics', r.choice(['lf', 'cr', 'crlf']), 1 + r.below(16)], ['filter', r.choice(FILTERS)]]
